@@ -30,12 +30,13 @@ import (
 func init() { runners["C05"] = runC05 }
 
 type w05 struct {
-	id     int
-	gid    uint64
-	cmd    chan func()
-	state  int // 0 idle, 1 parked, 2 blocked, 3 running
-	rel    chan struct{}
-	inInit int // process whose initialiser this worker is held in (-1 none)
+	id        int
+	gid       uint64
+	cmd       chan func()
+	state     int // 0 idle, 1 parked, 2 blocked, 3 running
+	rel       chan struct{}
+	inInit    int  // process whose initialiser this worker is held in (-1 none)
+	inOutOpen bool // held in the open hook of an out-port
 }
 
 type ev05 struct {
@@ -57,7 +58,7 @@ type world05 struct {
 	fail    string
 	hooks   map[int]process.StoreHook[int]
 	nextK   int
-	initRun map[int]int // process -> initialiser runs
+	initRun map[int]int  // process -> initialiser runs
 	touched map[int]bool // process had a Delete / Close / Exit (the once-oracle only looks at the others)
 }
 
@@ -233,6 +234,7 @@ func (w *world05) resume(x *w05) {
 	w.mu.Unlock()
 	x.state = 3
 	x.inInit = -1
+	x.inOutOpen = false
 	close(rel)
 	w.settle()
 }
@@ -312,7 +314,13 @@ func history05(r *rand.Rand, hist map[string]int, tier string) (string, any, str
 	}
 	for i, c := range w.pcfg {
 		i := i
-		hk := port.OpenHookFunc(func(p *process.Process) { w.park(3, i, procIdx(p)) })
+		isOut := c.out
+		hk := port.OpenHookFunc(func(p *process.Process) {
+			if me := w.cur(); me != nil {
+				me.inOutOpen = isOut
+			}
+			w.park(3, i, procIdx(p))
+		})
 		if c.out {
 			w.outs[i].AddOpenHook(hk)
 			for _, j := range c.ins {
@@ -530,6 +538,19 @@ func history05(r *rand.Rand, hist map[string]int, tier string) (string, any, str
 					w.emit(oev(x.id, 10))
 				}
 			case k < 85 && len(w.pcfg) > 0:
+				// not while a worker is held in an out-port's open hook: OutPort.Open walks a snapshot of its links that
+				// shares its backing array with the slice Unlink edits in place, so which in-ports it then opens is not
+				// determined by the order of critical sections (recorded under C20)
+				heldInOutOpen := false
+				for _, y := range w.workers {
+					if y.state == 1 && y.inOutOpen {
+						heldInOutOpen = true
+					}
+				}
+				if heldInOutOpen {
+					s--
+					continue
+				}
 				pr := r.Intn(len(w.pcfg))
 				opG, opS = fmt.Sprintf("MStart %d (MPortClose %d)", x.id, pr), fmt.Sprintf("w%d close port%d", x.id, pr)
 				f = func() {
